@@ -1,7 +1,7 @@
 import ExponaxModel.Proofs.MetricsAlgebra
 import ExponaxModel.Proofs.MetricsGenEq
 /-
-The metric axioms (zero for identical inputs, positivity, symmetry, homogeneity / scale freedom) for the NAMED
+The metric laws (zero for identical inputs, positivity, symmetry, homogeneity / scale freedom) for the NAMED
 spatial metrics regenerated from `exponax/metrics/_spatial.py` (`Gen.MetricsGen.MSE`, `RMSE`, `MAE`, `nMSE`, …),
 over `ℝ`, on multi-channel states `List (Array ℝ)`.  Route: `MetricsGenEq.*_eq` (regenerated = model), then the
 model lemmas of `MetricsAlgebra.lean`.
